@@ -232,6 +232,8 @@ def run(ctx, selftest=False):
     ctx.assumptions = ["TLC/SANY", "astropy units/Time, h5py, PyTables", "row identity is encoded in the values (id + 100000 x column index)",
                        "bit-exactness is checked through SHA-256 of each row's float64 values"]
     ctx.model_check("SampleFileMC", "MC_SampleFile.cfg", coverage=True)
+    if not quick:     # every history of four file operations (85.8 M states, ~4 min on 16 cores)
+        ctx.model_check("SampleFileMC", "MC_SampleFile_thorough.cfg", heap="12g")
     r = ctx.model_check("SampleFileMC", "MC_SampleFile_export.cfg", workers=1)
     rnd = random.Random(ctx.seed * 7001 + 12)
     allh = r.tagged("CASE")
